@@ -177,15 +177,19 @@ class Experiment:
         if result_file and Path(result_file).exists():
             CobaContext.logger.log("Restoring Results")
             restored = Result.from_file(result_file)
+            #an evaluation that produced no interactions is recorded in the log but it has no rows in the restored result
+            recorded = TransactionDecode().filter(DiskSource(result_file).read())
+            finished = [(*t[1],0)[:3] for t in recorded if t[0] == "I"]
         else:
             restored = None
+            finished = []
 
         n_given_lrns = len(set([l for _,l,_ in self._triples]))
         n_given_envs = len(set([e for e,_,_ in self._triples]))
 
         meta = {'n_learners':n_given_lrns,'n_environments':n_given_envs,'description':self._description,'seed':seed}
 
-        workitems = MakeTasks(self._triples,restored)
+        workitems = MakeTasks(self._triples,restored,finished)
         chunker   = ChunkTasks(mt)
         process   = CobaMultiprocessor(ProcessTasks(), mp, mc, False)
         encode    = TransactionEncode(restored)
